@@ -428,15 +428,16 @@ fn check_assertion_error(
     }
     // position
     let want_line = rendered.post_lines[entry_idx][post];
+    let want_path = rendered.entry_paths.get(entry_idx).cloned().unwrap_or_default();
     match arrow_location(&e.rendered) {
-        Some((_, line)) if line == want_line => {}
+        Some((path, line)) if line == want_line && (want_path.is_empty() || std::path::Path::new(&path) == std::path::Path::new(&want_path)) => {}
         other => {
             out.push(Finding {
                 ordinal,
                 prop: "C02",
                 clause: "assertion-error-points-elsewhere",
                 class: if expected.1.is_empty() { "bare-zero".into() } else { "commodity".into() },
-                what: format!("false assertion on line {} of {} reported at {:?}", want_line, t.payee, other),
+                what: format!("false assertion on line {} of {} {} reported at {:?}", want_line, if want_path.is_empty() { "the ledger" } else { want_path.as_str() }, t.payee, other),
                 extra: json!({"error": e.rendered, "expected_line": want_line}),
             });
             return;
@@ -563,7 +564,12 @@ pub fn run_book_case(prop: &'static str, profile: Profile, ctx: &Ctx, idx: u64, 
     if alias_seed.is_some() {
         labels.push("written-through-aliases".into());
     }
-    run_book_ledger_aliased(prop, &ledger, &outcomes, &state, &labels, rec, alias_seed);
+    // one case in six is cut into a tree of included files (in-memory file system)
+    let split_seed = if rng.chance(1, 6) { Some(rng.next_u64()) } else { None };
+    if split_seed.is_some() {
+        labels.push("cut-into-included-files".into());
+    }
+    run_book_ledger_full(prop, &ledger, &outcomes, &state, &labels, rec, alias_seed, split_seed);
 }
 
 pub fn run_book_ledger(
@@ -586,8 +592,22 @@ pub fn run_book_ledger_aliased(
     rec: &mut Recorder,
     alias_seed: Option<u64>,
 ) {
+    run_book_ledger_full(prop, ledger, outcomes, state, labels, rec, alias_seed, None)
+}
+
+#[allow(clippy::too_many_arguments)]
+pub fn run_book_ledger_full(
+    prop: &'static str,
+    ledger: &Ledger,
+    outcomes: &[(usize, Outcome)],
+    state: &State,
+    labels: &[String],
+    rec: &mut Recorder,
+    alias_seed: Option<u64>,
+    split_seed: Option<u64>,
+) {
     let declared;
-    let (ledger, rendered) = match alias_seed {
+    let (ledger, mut rendered) = match alias_seed {
         None => (ledger, ledger.render()),
         Some(seed) => {
             let mut r = Rng::for_case(seed, "alias-plan", 0);
@@ -599,7 +619,32 @@ pub fn run_book_ledger_aliased(
             (&declared, rendered)
         }
     };
-    let files = vec![(ops::ROOT.to_string(), rendered.text.clone())];
+    let mut files = vec![(ops::ROOT.to_string(), rendered.text.clone())];
+    let mut root = ops::ROOT.to_string();
+    if let Some(seed) = split_seed {
+        // cut the rendered text at entry boundaries into a tree of included files; the ground
+        // truth of every posting's (file, line) moves with it
+        let lines: Vec<&str> = rendered.text.lines().collect();
+        let entry_texts: Vec<String> = rendered.entry_lines.iter().map(|(a, b)| lines[a - 1..*b].iter().map(|l| format!("{}\n", l)).collect()).collect();
+        let mut r = Rng::for_case(seed, "split", 0);
+        let tree = crate::gen::splitter::Tree::split(&mut r, &entry_texts);
+        const BASE: &str = "/mem/t";
+        files = tree.as_fake(BASE);
+        root = format!("{}/{}", BASE, tree.root);
+        let mut post_lines = Vec::new();
+        let mut entry_lines = Vec::new();
+        let mut entry_paths = Vec::new();
+        for (k, (first, last)) in rendered.entry_lines.iter().enumerate() {
+            let start = tree.entry_line[k];
+            entry_lines.push((start, start + (last - first)));
+            post_lines.push(rendered.post_lines[k].iter().map(|l| start + (l - first)).collect());
+            entry_paths.push(format!("{}/{}", BASE, tree.placement[k]));
+        }
+        rec.count_n("split:files", files.len() as u64);
+        let joined: String = files.iter().map(|(p, c)| format!("=== {}\n{}", p, c)).collect();
+        rendered = Rendered { text: joined, entry_lines, post_lines, entry_paths };
+    }
+    let root = root.as_str();
     rec.op("report::process", &rendered.text);
     // generated magnitudes keep every sum and every written price product inside the decimal
     // range; only an implied exchange (outcome `may`) makes the code derive a rate and
@@ -607,7 +652,7 @@ pub fn run_book_ledger_aliased(
     rec.excuse_decimal_overflow = outcomes.iter().any(|(_, o)| matches!(o, Outcome::May(_) | Outcome::Unspecified(_)));
     okane_core::verif::set_enabled(true);
     let _ = okane_core::verif::drain();
-    let code = guarded(rec, || run_code(&files, ops::ROOT));
+    let code = guarded(rec, || run_code(&files, root));
     let events = okane_core::verif::drain();
     okane_core::verif::set_enabled(false);
     rec.hook_events(&events);
